@@ -65,6 +65,37 @@ func forEachInput(e Entry, thorough bool, rng *rand.Rand, fn func(class string, 
 	if thorough {
 		dense, havoc = 1500, 40000
 	}
+	// size ladder: one huge input first (a decoder with an internal scratch buffer must cope with
+	// a jump in size, not only with slowly growing inputs), then every power-of-two edge
+	if !e.Large {
+		sizes := []int{1 << 20, 70000, 100, 255, 256, 257, 511, 512, 513, 1023, 1024, 1025, 2047, 2048, 2049, 4095, 4096, 4097, 8191, 8192, 8193, 16385, 32767, 32768, 65535, 65536, 65537, 131073, 1 << 20}
+		if !thorough {
+			sizes = []int{1 << 18, 70000, 255, 256, 257, 1023, 1024, 1025, 2049, 4097, 8193, 65535, 65536, 65537, 1 << 18}
+		}
+		for si, n := range sizes {
+			for pi, pat := range []byte{0x00, 0x41, 0xFF} {
+				if n > 70000 && pi > 0 && !thorough {
+					continue
+				}
+				b := make([]byte, n)
+				for i := range b {
+					b[i] = pat
+				}
+				fn("size", si, b)
+			}
+			// a valid encoding stretched to the size by repeating its tail
+			for k, s := range e.Seeds {
+				if k >= 2 || len(s) == 0 || n > 70000 {
+					break
+				}
+				b := append([]byte{}, s...)
+				for len(b) < n {
+					b = append(b, s[len(s)/2:]...)
+				}
+				fn("size-seed", si, b[:n])
+			}
+		}
+	}
 	// raw inputs
 	fn("raw", 0, []byte{})
 	for _, c := range []byte{0x00, 0xFF, 0x41, 0x80, 0x02, 0x05, 0x60, 0xC0} {
@@ -109,6 +140,24 @@ func forEachInput(e Entry, thorough bool, rng *rand.Rand, fn func(class string, 
 		}
 	}
 	if e.Text {
+		// delimiters moved without changing the length: adjacent characters swapped, and each
+		// character swapped with the one two and three places on
+		for si, s := range e.Seeds {
+			if len(s) > 400 {
+				continue
+			}
+			for d := 1; d <= 3; d++ {
+				for p := 0; p+d < len(s); p++ {
+					if s[p] == s[p+d] {
+						continue
+					}
+					m := append([]byte{}, s...)
+					m[p], m[p+d] = m[p+d], m[p]
+					fn("swap", p, m)
+				}
+			}
+			_ = si
+		}
 		// runes whose lower/upper-case form has a different UTF-8 length (Kelvin sign, Angstrom,
 		// Ohm, capital sharp s, dotted capital I, long s, ligatures) substituted byte-for-byte
 		// into valid text: length checks done before case folding go wrong on these
